@@ -107,6 +107,10 @@ func checkC09Format(c *BuildCase, f string, d *Decoded, vs *vlist) {
 		}
 	}
 	for inner, w := range want {
+		if f == "rpm" && bytes.IndexByte(w, 0) >= 0 {
+			delete(got, inner)
+			continue // outside the domain of rpm scriptlets
+		}
 		g, ok := got[inner]
 		if !ok {
 			if f == "rpm" && len(w) == 0 {
@@ -189,7 +193,11 @@ func scriptBaseCase() *BuildCase {
 }
 
 func genScriptBytes(t *rapid.T, label string) string {
-	switch rapid.IntRange(0, 7).Draw(t, label+".class") {
+	switch rapid.IntRange(0, 8).Draw(t, label+".class") {
+	case 8:
+		// every byte value including NUL (compared in every format but rpm, whose scriptlets are C strings)
+		return string(rapid.SliceOfN(rapid.Byte(), 1, 120).Draw(t, label+".bin0")) + "\x00tail"
+
 	case 0:
 		return "" // empty
 	case 1:
